@@ -88,6 +88,7 @@ class Runner:
         self.mem_names = {}
         self.problems = []
         self.made = {}                    # factory object id -> object ids it has made, in order
+        self.lost = []                    # objects with a reference held by a pickle that never left (known finding C13-PKL)
 
     # -- plumbing ------------------------------------------------------------------------------
     def tag(self):
@@ -267,6 +268,27 @@ class Runner:
         self.book.remove(sr['tag'])
         self.record(['remove', sr['tag'], p, 1 if keep else 0, t])
 
+    def do_fail_with(self, p, ftag, tag):
+        """a hosted method is given proxy `tag` as an argument and raises: no reference may be left behind"""
+        r = self.call(p, ['fail_with', ftag, tag])
+        if r[0] != 'ok':
+            self.problems.append(f'failing call with proxy {tag} as an argument went wrong in process {p}: {r[1:3]}')
+            return
+        self.record(['failwith', tag])
+
+    def do_bad_pickle(self, p, tag, ctag):
+        """proxy `tag` is pickled as part of a message whose pickling then fails (known finding C13-PKL: the reference added
+        by __reduce__ is never given back); recorded as a pickle that is never unpickled"""
+        r = self.call(p, ['bad_pickle', tag, ctag])
+        if r[0] != 'ok':
+            self.problems.append(f'bad_pickle with proxy {tag} went wrong in process {p}: {r[1:3]}')
+            return
+        t = self.tag()
+        x = self.book.get(tag)['obj']
+        self.book.add(t, ('lost', False), x)
+        self.lost.append(x)
+        self.record(['pickle', tag, 0, t], note='pickle of a message that then failed as a whole')
+
     def do_exit(self, p, hard=False):
         proc, cq, aq = self.procs.pop(p)
         cq.put(['hard_exit'] if hard else ['exit'])
@@ -290,7 +312,7 @@ class Runner:
             self.problems.append(f'proxy {tag} to object {x} (expected count {self.book.count(x)}) is not usable in process {p}: {r[1:3]}')
 
     # -- history -----------------------------------------------------------------------------------
-    def run(self):
+    def run(self, bad_pickle=False):
         rng = self.rng
         self.start_helper([])
         self.start_helper([])
@@ -300,6 +322,11 @@ class Runner:
             self.random_op()
             if len(self.problems) > 3:
                 break
+        if bad_pickle:
+            mine = self.book.proxies(0)
+            conts = [r for r in mine if self.book.kind[r['obj']] == 'list']
+            if conts and mine:
+                self.do_bad_pickle(0, rng.choice(mine)['tag'], conts[0]['tag'])
         # wind down: everything is dropped; the table must become empty
         for t in list(self.transit_bytes):
             self.do_unpickle(t, 0)
@@ -307,7 +334,7 @@ class Runner:
             self.do_exit(p)
         for r in list(self.book.proxies(0)):
             self.do_drop(0, r['tag'])
-        return {'ops': self.ops, 'steps': self.steps, 'problems': self.problems,
+        return {'ops': self.ops, 'steps': self.steps, 'problems': self.problems, 'lost': self.lost,
                 'final_table': self.debug_info(), 'mem_left': {str(x): os.path.exists('/dev/shm/' + n) for x, n in self.mem_names.items()}}
 
     def random_op(self):
@@ -315,7 +342,7 @@ class Runner:
         procs = sorted(self.procs)
         for _ in range(30):
             kind = rng.choice(['create', 'create', 'pickle', 'unpickle', 'unpickle', 'spawn', 'drop', 'drop', 'store', 'store',
-                               'remove', 'remove', 'exit', 'use', 'use', 'again', 'again'])
+                               'remove', 'remove', 'exit', 'use', 'use', 'again', 'again', 'failwith', 'failwith'])
             p = rng.choice(procs)
             mine = book.proxies(p)
             if kind == 'create':
@@ -337,6 +364,11 @@ class Runner:
                 if cands:
                     ftag, x, k = rng.choice(cands)
                     return self.do_again(p, ftag, x, k)
+                continue
+            if kind == 'failwith':
+                fs = [r for r in mine if book.kind[r['obj']] == 'factory']
+                if fs and mine:
+                    return self.do_fail_with(p, rng.choice(fs)['tag'], rng.choice(mine)['tag'])
                 continue
             if kind == 'pickle' and mine:
                 return self.do_pickle(p, rng.choice(mine)['tag'])
@@ -363,6 +395,9 @@ class Runner:
         return None
 
 
+PKL_KEY = 'C13-PKL-failed-pickle-leaks-reference'
+
+
 def oracle(res):
     if res.get('crash'):
         return 'harness/implementation crashed: ' + res['crash']
@@ -382,6 +417,9 @@ def oracle(res):
                 return f'after step {i} {st["op"]} shared memory of object {x} exists={there} but the object is {"referenced" if alive else "unreferenced"}'
     # (hosted containers that refer to each other keep themselves alive: those references still exist)
     last = res['steps'][-1]['expected'] if res['steps'] else []
+    if res.get('lost'):
+        return (f'objects {sorted(set(res["lost"]))} stay hosted for ever: each has a reference added by __reduce__ for a message whose '
+                f'pickling then failed, which nobody will give back (server table at the end: {res["final_table"]})', PKL_KEY)
     still = sum(1 for v in last if v is not None)
     if len(res['final_table']) != still:
         return f'after every proxy was dropped the server hosts {res["final_table"]} but {still} objects are still referenced from hosted containers'
@@ -402,6 +440,8 @@ def impl_main(argv):
     rng = random.Random(seed)
     out = []
     specs = [c['cfg'] for c in corpus] + [{'seed': rng.randrange(10**9), 'length': rng.choice([5, 10, 20, 30, 40])} for _ in range(n)]
+    if specs:
+        specs[0] = dict(specs[0], bad_pickle=True)      # one history per run ends with the known finding C13-PKL
     import gc
     gc.disable()      # see harness/props/c14.py: collections only at safe points (CPython 3.12.1 thread-start / finalizer deadlock)
     for spec in specs:
@@ -409,13 +449,18 @@ def impl_main(argv):
         t0 = time.time()
         try:
             with ServerProcess() as m:
-                res = Runner(m, random.Random(spec['seed']), spec['length']).run()
+                res = Runner(m, random.Random(spec['seed']), spec['length']).run(bad_pickle=spec.get('bad_pickle', False))
         except BaseException as e:  # noqa
             import traceback
             res = {'crash': repr(e)[:300] + ' | ' + traceback.format_exc()[-500:], 'ops': [], 'steps': [], 'problems': [],
                    'final_table': {}, 'mem_left': {}}
         res['elapsed'] = round(time.time() - t0, 2)
-        out.append({'cfg': spec, 'obs': res, 'oracle': oracle(res), 'strategy': f'len{spec["length"]}', 'verdict': 'ok'})
+        orc = oracle(res)
+        if isinstance(orc, tuple):
+            orc, key = orc
+        else:
+            key = None
+        out.append({'cfg': spec, 'obs': res, 'oracle': orc, 'oracle_key': key, 'strategy': f'len{spec["length"]}', 'verdict': 'ok'})
     json.dump(out, open(outp, 'w'))
     sys.stdout.flush()
     os._exit(0)
@@ -441,6 +486,8 @@ def coq_case(r):
             return f'ORemove {cnat(o[1])} {cnat(o[2])} {"true" if o[3] else "false"} {cnat(o[4])}'
         if k == 'exit':
             return f'OExit {cnat(o[1])}'
+        if k == 'failwith':
+            return f'OFailWith {cnat(o[1])}'
         raise ValueError(o)
 
     def cobs(st):
@@ -470,7 +517,7 @@ ASSUME = [
 def check(tier, seed, replay=None):
     from harness import core
     part = core.Part('histories', 'harness.props.c13', 'gen', 10, 150, 'DriverRef', coq_case,
-                     lambda r: (r['oracle'], None) if r['oracle'] else None,
+                     lambda r: (r['oracle'], r.get('oracle_key')) if r['oracle'] else None,
                      lambda r: len(r['obs']['ops']) >= 10,
                      key=lambda r: json.dumps(r['obs']['ops']),
                      describe=lambda r: {'cfg': r['cfg'], 'ops': r['obs']['ops'], 'problems': r['obs']['problems'],
